@@ -471,7 +471,7 @@ package main
 //@   property C19 C17 C10
 //@   hooks fs linkrun linker
 //@   maxpaths 4000
-//@   requires !lockHeld && !everLocked && unlocks == 0 && !built && !stamped && !linkPatched && !anySelected && !dbgMade && !dbgMarked && !revWasCall && !dbgMissing && gfTested == 0 && !gfBad
+//@   requires !lockHeld && !everLocked && unlocks == 0 && !built && !stamped && !linkPatched && !anySelected && !dbgMade && !dbgMarked && !revWasCall && !dbgMissing && gfTested == 0 && !gfBad && !mapPending
 //@   ensures @lock-released-once-after-the-link: linkPatched ==> !lockHeld && unlocks == 1
 //@   ensures @no-lock-leak: !lockHeld
 //@   ensures @temp-dir-removed-on-every-exit: [C19] tempMade && !old(tempMade) ==> removed[tempDir]
@@ -939,6 +939,8 @@ package main
 //@ ghost mapName string
 //@ ghost mapOK bool
 
+//@ ghost mapPending bool
+
 //@ hookset mapnames
 //@ hook before (*mvdan.cc/garble.transformer).obfuscatedObjectName(t, o)
 //@   assert("map-asks-the-transformer-built-for-the-package-being-listed", t == tf && t.curPkg == lpkg)
@@ -953,17 +955,22 @@ package main
 //@   assert("map-reports-the-path-of-the-package-being-listed", p == lpkg && lpkg.ToObfuscate)
 //@ hook before mvdan.cc/garble.transformerForListedPackage(p)
 //@   assert("map-only-describes-packages-selected-for-obfuscation", p.ToObfuscate)
+//@   assert("map-builds-the-transformer-for-the-package-being-listed", p == lpkg)
+//@   mapPending = false
 //@ end
 
 //@ func commandMap
 //@   property C13 C19
 //@   hooks mapnames parse fs
 //@   maxpaths 4000
-//@   requires !anySelected && !dbgMade && !dbgMarked && !dbgMissing && gfTested == 0 && !gfBad
+//@   requires !anySelected && !dbgMade && !dbgMarked && !dbgMissing && gfTested == 0 && !gfBad && !mapPending
 //@   skip safety
 //@   unclaimed obfuscatedObjectName/requires because the transformer and its package are non-nil whenever transformerForListedPackage reports no error; the remaining precondition is about go/types
 //@   unclaimed obfuscatedImportPath/requires because import paths of listed packages are non-empty by construction of go list
 //@   ensures @temp-dir-removed-on-every-exit: [C19] tempMade && !old(tempMade) ==> removed[tempDir]
+//@   loop 0
+//@     invariant @every-listed-package-selected-for-obfuscation-is-described-none-skipped: [C13] !mapPending
+//@     iter mapPending = lpkg.ToObfuscate
 //@ end
 
 // ---- C08: what reflection detection records, and under which name ----
@@ -1528,10 +1535,26 @@ package main
 //@ func (*listedPackage).hasDep
 //@   pure
 //@   trusted membership test in the (lazily built) set of transitive dependencies
+//@ end
 
+//@ ghost srWalks int
+
+//@ hookset stripwalk
+//@ hook before go/ast.Inspect(n, f)
+//@   assert("[C10] print-redirection-walks-the-whole-file-methods-included", n == file)
+//@   srWalks = srWalks + 1
+//@ end
+
+// The rule table (which functions are emptied) is checked by the ground obligations of C10 against
+// the runtime sources; here: outside print.go the print/println redirection walks the whole file.
 //@ func stripRuntime
-//@   trusted rule table checked by the ground obligations of C10; here only when it is called
-//@   assigns *
+//@   property C10
+//@   hooks stripwalk
+//@   skip safety call-requires
+//@   maxpaths 6000
+//@   assigns *, ghost srWalks
+//@   ensures @prints-are-redirected-in-every-file-but-print.go: srWalks == old(srWalks) + ite(basename != "print.go", 1, 0)
+//@ end
 
 //@ func updateEntryOffset
 //@   trusted rewrites one constant expression in runtime/symtab.go
